@@ -299,16 +299,29 @@ func (l *vf15Link) clientWrite(b []byte, chunks []int) string {
 	if err := l.sess.Feed(ct); err != nil {
 		return fmt.Sprintf("VIOL[c15-client-packet]: after client Write(%d): %v", len(b), err)
 	}
-	if l.sess.Buffered() != 0 {
-		return fmt.Sprintf("VIOL[c15-client-packet]: client Write(%d) left %d bytes that do not form a complete packet", len(b), l.sess.Buffered())
-	}
-	if !bytes.Equal(l.sess.Rx, l.wrote) {
-		return fmt.Sprintf("VIOL[c15-upstream]: server decoded %d bytes, client wrote %d (first difference at %d)", len(l.sess.Rx), len(l.wrote), vf15FirstDiff(l.sess.Rx, l.wrote))
+	if rx := l.sess.Rx; len(rx) > len(l.wrote) || !bytes.Equal(rx, l.wrote[:len(rx)]) {
+		return fmt.Sprintf("VIOL[c15-upstream]: server decoded %d bytes that are not a prefix of the %d bytes the client wrote (first difference at %d)", len(rx), len(l.wrote), vf15FirstDiff(rx, l.wrote))
 	}
 	for i, p := range l.sess.RxPkts {
 		if p.Flags != refss.FlagPayload {
 			return fmt.Sprintf("VIOL[c15-client-packet]: client packet %d carries flags %#x", i, p.Flags)
 		}
+	}
+	return ""
+}
+
+// upstreamComplete is called when the client application will not write any
+// more on this connection: everything it wrote must have reached the server
+// (no promptness is demanded of the individual Write calls before).
+func (l *vf15Link) upstreamComplete(ctx string) string {
+	if l.sess == nil {
+		return ""
+	}
+	if !bytes.Equal(l.sess.Rx, l.wrote) {
+		return fmt.Sprintf("VIOL[c15-upstream]: %s: server decoded %d bytes, client wrote %d (first difference at %d)", ctx, len(l.sess.Rx), len(l.wrote), vf15FirstDiff(l.sess.Rx, l.wrote))
+	}
+	if l.sess.Buffered() != 0 {
+		return fmt.Sprintf("VIOL[c15-client-packet]: %s: the client's last Write left %d bytes that do not form a complete packet", ctx, l.sess.Buffered())
 	}
 	return ""
 }
